@@ -428,6 +428,90 @@ func (r *Run) debuggerFrame() {
 	}
 }
 
+// sessionLifecycle (C19): the goroutine started by Interpreter.Debug registers the terminate event as a
+// deferred call before any statement that can fail or emit another event, so that the event is emitted
+// on every exit (a panic of the program included) and after every other event of the session; and the
+// program is executed only after a resume request was received for the main routine.
+func (r *Run) sessionLifecycle() {
+	p := r.L.ByName["interp"]
+	fd := r.L.FindFunc(p, "Interpreter.Debug")
+	if fd == nil {
+		r.engineError("Interpreter.Debug does not exist in the current tree")
+		return
+	}
+	var lit *ast.FuncLit
+	ast.Inspect(fd.Body, func(n ast.Node) bool {
+		if g, ok := n.(*ast.GoStmt); ok && lit == nil {
+			lit, _ = g.Call.Fun.(*ast.FuncLit)
+		}
+		return true
+	})
+	isTerminate := func(c *ast.CallExpr) bool {
+		if !strings.HasSuffix(types.ExprString(c.Fun), "events") {
+			return false
+		}
+		found := false
+		for _, a := range c.Args {
+			ast.Inspect(a, func(n ast.Node) bool {
+				if kv, ok := n.(*ast.KeyValueExpr); ok {
+					if k, ok := kv.Key.(*ast.Ident); ok && k.Name == "reason" {
+						if v, ok := kv.Value.(*ast.Ident); ok && v.Name == "DebugTerminate" {
+							found = true
+						}
+					}
+				}
+				return true
+			})
+		}
+		return found
+	}
+	deferred, before, witness := 0, true, ""
+	recvAt, execAt := -1, -1
+	if lit == nil {
+		witness = "no goroutine literal in Interpreter.Debug"
+	} else {
+		seenOther := false
+		for i, st := range lit.Body.List {
+			if d, ok := st.(*ast.DeferStmt); ok {
+				if isTerminate(d.Call) {
+					deferred++
+					if seenOther {
+						before = false
+						witness = "the terminate event is deferred after " + r.L.Fset.Position(lit.Body.List[i-1].Pos()).String()
+					}
+				}
+				continue
+			}
+			seenOther = true
+			txt := ""
+			ast.Inspect(st, func(n ast.Node) bool {
+				switch n := n.(type) {
+				case *ast.UnaryExpr:
+					if n.Op == token.ARROW && strings.HasSuffix(types.ExprString(n.X), ".resume") && recvAt < 0 {
+						recvAt = i
+					}
+				case *ast.CallExpr:
+					if se, ok := n.Fun.(*ast.SelectorExpr); ok && (se.Sel.Name == "ExecuteWithContext" || se.Sel.Name == "Execute") && execAt < 0 {
+						execAt = i
+					}
+				}
+				return true
+			})
+			_ = txt
+		}
+		if deferred != 1 && witness == "" {
+			witness = fmt.Sprintf("%d deferred terminate events in the session goroutine", deferred)
+		}
+	}
+	r.frameObl("interp.Interpreter.Debug/defer:terminate-event-on-every-exit", "the session goroutine defers exactly one terminate event, before any statement that is not a defer", lit != nil && deferred == 1 && before, witness)
+	w2 := ""
+	if !(recvAt >= 0 && execAt > recvAt) {
+		w2 = fmt.Sprintf("receive from the main routine's resume channel at statement %d, program execution at statement %d of the session goroutine", recvAt, execAt)
+	}
+	r.frameObl("interp.Interpreter.Debug/order:resume-before-execution", "the program is executed only after a resume request for the main routine was received", recvAt >= 0 && execAt > recvAt, w2)
+	r.FuncsUC = append(r.FuncsUC, "interp.Interpreter.Debug")
+}
+
 // contextWatchers (C09): the three *WithContext entry points call stop exactly once on the
 // cancellation branch of their select and return the context's error from it.
 func (r *Run) contextWatchers() {
